@@ -4,12 +4,16 @@
 -/
 import XpDriver.Proto
 import XpDriver.C06
+import XpDriver.C19
 open Lean Xp Xp.Proto
 
 def dispatch (op : String) (j : Json) : R Json :=
   match op with
   | "ping" => pure (Json.str "pong")
   | "occl" => Ops.occl j
+  | "obj_run" => Ops.objRun j
+  | "obj_compile" => Ops.objCompile j
+  | "to_valid" => Ops.toValidOp j
   | _ => throw "bad-op"
 
 def step (line : String) : String :=
